@@ -177,6 +177,35 @@ func runC10(c *fw.Ctx) {
 			gcsBFS(c, "C10", store, st, setup, alpha, d, false, c10Tag, fmt.Sprintf("%s_step%dns", store, st))
 		}
 	}
+	// second alphabet: requests that say as little as possible - writes without content type and without metadata
+	// (a write replaces the whole object, whatever the replaced version carried), user-metadata entries and fields
+	// whose value is the empty string (values like any other) - against writes and patches that say a lot
+	alphaE := []GOp{
+		{Kind: "Upload", Proto: "multipart", Bucket: "b", Name: "x", Data: []byte("4444"), Meta: gcs.ObjMeta{}},
+		{Kind: "Upload", Proto: "media", Bucket: "b", Name: "x", Data: []byte("55555"), Meta: gcs.ObjMeta{}},
+		{Kind: "Upload", Proto: "resumable", Bucket: "b", Name: "x", Data: []byte("666666"), Meta: gcs.ObjMeta{Metadata: map[string]string{"empty": "", "k": "r"}}},
+		{Kind: "Upload", Proto: "media", Bucket: "b", Name: "x", Data: []byte("1"), Meta: gcs.ObjMeta{ContentType: "application/pdf"}},
+		{Kind: "Upload", Proto: "multipart", Bucket: "b", Name: "x", Data: []byte("22"), Meta: gcs.ObjMeta{ContentType: "text/two", CacheControl: "max-age=1", ContentDisposition: "inline", ContentLanguage: "de", Metadata: map[string]string{"k": "v", "l": "w"}}},
+		{Kind: "Compose", Bucket: "b", Name: "x", Srcs: []GSrc{{Name: "x"}, {Name: "x"}}, Meta: gcs.ObjMeta{}},
+		{Kind: "Copy", Bucket: "b", Name: "x", DstBucket: "b", DstName: "y"},
+		{Kind: "Copy", Bucket: "b", Name: "y", DstBucket: "b", DstName: "x"},
+		P("x", `{"metadata":{"e":"","k":""}}`),
+		P("x", `{"contentType":"","cacheControl":""}`),
+		P("x", `{"contentType":"text/patched","metadata":{"p":"1"}}`),
+		P("x", `{}`),
+		{Kind: "Delete", Bucket: "b", Name: "x"},
+		{Kind: "GetMeta", Bucket: "b", Name: "x"},
+		{Kind: "Get", Bucket: "b", Name: "x", Form: "json"},
+		{Kind: "List", Bucket: "b"},
+	}
+	depthE := 4
+	if c.Thorough() {
+		depthE = 5
+	}
+	for _, store := range []string{"mem", "file"} {
+		gcsBFS(c, "C10", store, 1, setup, alphaE, depthE, false, c10Tag, fmt.Sprintf("%s_empty_values", store))
+	}
 	c.Bound("alphabet", len(alpha))
+	c.Bound("alphabet_empty_values", len(alphaE))
 	c.Bound("clock_steps_ns", steps)
 }
